@@ -283,7 +283,7 @@ func c01Blocks(c *vh.Ctx, src string, prog *parser.Program) []c01Block {
 		}
 		body := a.FieldByName("Stmts")
 		if !body.IsNil() && body.Len() > 0 {
-			emit(fmt.Sprintf("action %d", i), "s", "", func(t *termCtx) []string { return t.list(body) }, comp.Actions[i].Body)
+			emit(fmt.Sprintf("action %d", i), "a", "", func(t *termCtx) []string { return t.list(body) }, comp.Actions[i].Body)
 		}
 	}
 	end := ast.FieldByName("End")
